@@ -295,6 +295,27 @@ def run_history(case):
                                            "c12": [110.25, 121.5], "c44": [80.75, 88.5]})
                     with K.chdir(d):
                         fill_cij(df, "cubic", ignore_residuals=True)
+                elif op[0] == "fill-retry":
+                    # "try systems until one is accepted" on ONE table object: the refused attempt must leave the table as
+                    # it was, so the accepted attempt equals a fill of a fresh copy
+                    import pandas
+                    from cij.util.fill import fill_cij
+                    mk = lambda: pandas.DataFrame({"V": [300.0, 280.0, 260.0], "c11": [301.5, 333.25, 370.0], "c33": [280.5, 310.0, 350.25],
+                                                   "c12": [110.25, 121.5, 130.0], "c13": [90.0, 99.5, 111.25], "c44": [80.75, 88.5, 97.0]})
+                    t1, t2 = mk(), mk()
+                    with K.chdir(d):
+                        try:
+                            fill_cij(t1, "cubic")          # hexagonal data: refused
+                            raise HarnessError("a hexagonal table was accepted as cubic: 'fill-retry' is vacuous")
+                        except HarnessError:
+                            raise
+                        except (Exception, Warning):
+                            pass
+                        a = fill_cij(t1, "hexagonal")
+                        b = fill_cij(t2, "hexagonal")
+                    nchecks += 1
+                    if sorted(a.columns) != sorted(b.columns) or not numpy.allclose(a[sorted(a.columns)].to_numpy(float), b[sorted(b.columns)].to_numpy(float), rtol=1e-12, atol=0):
+                        viol.append(V("c14:history:fill-after-refused-fill-differs", f"step {n}: filling a table as hexagonal after a REFUSED cubic attempt on the same table object differs from filling a fresh copy: columns {sorted(a.columns)} vs {sorted(b.columns)}"))
                 elif op[0] == "refused":
                     # a calculation that FAILS earlier in the same process (a caller trying systems in a try/except loop)
                     try:
@@ -352,7 +373,7 @@ def valid_histories(alphabet, depth):
 def explore(ctx):
     ctx.rule = ("subprocess space: `cij run` under PYTHONHASHSEED in {0,1,2} (quick; full product for data set A, seed 1 for B and C) / "
                 "{0..15, random} (thorough) x 6 working-directory situations (incl. started elsewhere next to decoy inputs) x 3 data sets (+ interpreter started with -O, process locale C, a 20-column terminal), outputs byte-compared with a golden run; history space: all valid operation sequences of "
-                "depth <=3 (quick) / <=4 (thorough) over {new A/B, read(x, p), write(x), fill, cfg, run-static, cij fill, a construction refused by the symmetry check, input files rewritten in place with another data set, a fill with the residual check switched off} on real objects in long-lived workers, "
+                "depth <=3 (quick) / <=4 (thorough) over {new A/B, read(x, p), write(x), fill, cfg, run-static, cij fill, a construction refused by the symmetry check, input files rewritten in place with another data set, a fill with the residual check switched off, a refused fill followed by an accepted one on the same table object} on real objects in long-lived workers, "
                 "plus all 35 order-preserving interleavings of A:[new,read,read,write] with B:[new,read,write]; oracles: every write "
                 "byte-identical to the golden files, every read bit-identical to a fresh process and to itself when repeated, working directory unchanged after every operation, module-level "
                 "state digests (writer rules, qha and packaged defaults, pandas / numpy / decimal / locale process options) never change, fill(fill(x)) = fill(x); non-trivial = at least one comparison made")
@@ -379,7 +400,7 @@ def explore(ctx):
             for it in ("-O", "LC_ALL=C", "narrow-terminal")]
     ctx.run(MOD, "run_cli_case", cli, part="subprocess-cli", chunksize=1)
     reads = READS[:3] if ctx.quick else READS[:5]
-    alphabet = [["new", "A"], ["new", "B"]] + [["read", x, p] for x in "AB" for p in reads] + [["write", "A"], ["write", "B"], ["fill"], ["cfg"], ["static"], ["fillcli"], ["refused"], ["swap", "A"], ["fill-ignore"]]
+    alphabet = [["new", "A"], ["new", "B"]] + [["read", x, p] for x in "AB" for p in reads] + [["write", "A"], ["write", "B"], ["fill"], ["cfg"], ["static"], ["fillcli"], ["refused"], ["swap", "A"], ["fill-ignore"], ["fill-retry"]]
     hist = valid_histories(alphabet, 3 if ctx.quick else 4)
     a_ops = [["new", "A"], ["read", "A", "pb_iso_c11"], ["read", "A", "pb_adi_c11"], ["write", "A"]]
     b_ops = [["new", "B"], ["read", "B", "pb_adi_c11"], ["write", "B"]]
